@@ -215,8 +215,22 @@ RM(c) == <<"rc_removed", c>>
 
 \* init_ca + publisher + repository + ca_add_child at the parent +
 \* ca_parent_add_or_update at the child (manager.rs import_ca does the same).
+\* (A CA that was deleted can be created again under the same name -- with
+\* the operation flag "recreate" -- once nothing of the old one is left: its
+\* parent has removed the child, the publication server's operator has
+\* removed the publisher (it is registered with the identity of the deleted
+\* CA), nothing of it is published or queued.  The new CA starts without any
+\* report about parent or repository.)
+CanRecreate(c) ==
+    /\ "recreate" \in Ops /\ gone[c] /\ cstate[c] = "none" /\ ~pubknown[c]
+    /\ \A s \in SlotsOf(c) : /\ (~hasp[s] \/ s = c)
+                              /\ iss[s] = NoCerts /\ sus[s] = NoCerts
+                              /\ pub[s] = EmptyPub
+                              /\ {SP(s), RM(s)} \cap tasks = {}
+    /\ SR(c) \notin tasks
+    /\ \A d \in AllCA : parent[d] = c => cstate[d] = "none"
 AddCa(c, p, R) ==
-    /\ IsCa(c) /\ ~exists[c] /\ ~gone[c] /\ c # Top /\ c \notin Foreign
+    /\ IsCa(c) /\ ~exists[c] /\ (~gone[c] \/ CanRecreate(c)) /\ c # Top /\ c \notin Foreign
     /\ IsCa(p) /\ exists[p] /\ p # c
     /\ R # NoRes /\ R \subseteq Holdings(p)
     /\ exists' = [exists EXCEPT ![c] = TRUE]
@@ -230,7 +244,8 @@ AddCa(c, p, R) ==
     /\ pubknown' = [pubknown EXCEPT ![c] = TRUE]
     /\ pst' = [pst EXCEPT ![c] = [last |-> "ok", ents |-> R]]
     /\ kst' = [kst EXCEPT ![c] = "ok"]
-    /\ UNCHANGED <<rst, gone, iss, sus, rc, rcv, req, routes, pub>>
+    /\ gone' = [gone EXCEPT ![c] = FALSE]
+    /\ UNCHANGED <<rst, iss, sus, rc, rcv, req, routes, pub>>
 
 \* When a resource class is removed the certificates issued under it go
 \* with it (certauth.rs: the ResourceClass holds them).
@@ -844,7 +859,9 @@ Renew(due) ==
 \* content goes with it) and later adds it again; "bulk sync" tells every CA
 \* to synchronise with its repository.
 PubRemove(c) ==
-    /\ IsCa(c) /\ exists[c] /\ pubknown[c] /\ c # Top
+    /\ IsCa(c) /\ pubknown[c] /\ c # Top
+    \* (also the publisher a deleted CA has left behind)
+    /\ (exists[c] \/ ("recreate" \in Ops /\ gone[c]))
     /\ pubknown' = [pubknown EXCEPT ![c] = FALSE]
     /\ pub' = [s \in AllCA |-> IF s \in SlotsOf(c) THEN EmptyPub ELSE pub[s]]
     /\ rst' = [rst EXCEPT ![c].same = rst[c].empty]
